@@ -70,8 +70,6 @@ def r2(ctx):
 
 
 RULES = [r1, r2]
-CLAIMED = False
-NA_REASON = "rules C03.R1-R2 are wired; R2 fires on the unchanged tree (root offsets summed over the wrong root list) and is being triaged before the property is claimed"
 EXPLANATION = ("C03 (honest proofs accepted, replicas converge): acceptance and convergence depend on flat-tree arithmetic that no structural rule captures; decided narrowly: create_proof reads the value for "
                "the proof's own block index, returns Ok(None) without building a proof when that block is not held, and passes request and proof parts through unchanged (R1); byte_offset_in_changeset sums "
                "root lengths over the same root list in which it searched the position, and its panic-capable constructs are discharged (R2).")
